@@ -255,6 +255,8 @@ fn inner_scoped(seed: u64, actions: &mut Vec<String>, calls_checked: &mut u64, n
     let base = st.var(10i64);
     let calls: Rc<RefCell<Vec<(u64, i64)>>> = Rc::new(RefCell::new(vec![]));
     let stash: Rc<RefCell<Option<(u64, i64, Memo)>>> = Rc::new(RefCell::new(None));
+    // the memoised functions of earlier runs stay callable (the user kept them)
+    let old_fns: Rc<RefCell<Vec<(u64, Memo)>>> = Rc::new(RefCell::new(vec![]));
     let gen_ctr = Rc::new(Cell::new(0u64));
     let msel = st.var(0i64);
     // the maker's closure returns the same node on every run in half of the histories
@@ -266,10 +268,13 @@ fn inner_scoped(seed: u64, actions: &mut Vec<String>, calls_checked: &mut u64, n
     let nested = rng.chance(1, 2);
     let osel = st.var(0i64);
     let make_inner = {
-        let (calls, stash, gen_ctr, basew, fixed) = (calls.clone(), stash.clone(), gen_ctr.clone(), base.watch(), fixed.clone());
+        let (calls, stash, gen_ctr, basew, fixed, old_fns) = (calls.clone(), stash.clone(), gen_ctr.clone(), base.watch(), fixed.clone(), old_fns.clone());
         move |msel_w: &Incr<i64>| -> Incr<i64> {
-            let (calls, stash, gen_ctr, basew, fixed) = (calls.clone(), stash.clone(), gen_ctr.clone(), basew.clone(), fixed.clone());
+            let (calls, stash, gen_ctr, basew, fixed, old_fns) = (calls.clone(), stash.clone(), gen_ctr.clone(), basew.clone(), fixed.clone(), old_fns.clone());
             msel_w.binds(move |ws, &v| {
+                if let Some((g, _, f)) = stash.borrow_mut().take() {
+                    old_fns.borrow_mut().push((g, f));
+                }
                 let st = ws.upgrade().unwrap();
                 let gen = gen_ctr.get() + 1;
                 gen_ctr.set(gen);
@@ -304,7 +309,33 @@ fn inner_scoped(seed: u64, actions: &mut Vec<String>, calls_checked: &mut u64, n
     let mut maker_dead = false;
     let n_actions = 15 + rng.below(30);
     for _ in 0..n_actions {
-        match rng.below(10) {
+        match rng.below(11) {
+            10 => {
+                // a hit on the memoised function of an *earlier* run, for a key whose (invalidated)
+                // node is still held: still the same node, still no invocation
+                let cur = stash.borrow().as_ref().map(|s| s.0);
+                let cands: Vec<usize> = (0..held.len()).filter(|i| Some(held[*i].gen) != cur && old_fns.borrow().iter().any(|(g, _)| *g == held[*i].gen)).collect();
+                if cands.is_empty() {
+                    continue;
+                }
+                let h = &held[*rng.pick(&cands)];
+                let before = calls.borrow().len();
+                let node = {
+                    let mut o = old_fns.borrow_mut();
+                    let f = o.iter_mut().find(|(g, _)| *g == h.gen).unwrap();
+                    (f.1)(h.key)
+                };
+                let after = calls.borrow().len();
+                *calls_checked += 1;
+                actions.push(format!("call(old gen {}, key {}) on a held node, invoked={}", h.gen, h.key, after - before));
+                if after != before {
+                    return Err(format!("memoised call (function of an earlier run of its bind) for key {} invoked the function although a reference to its node is alive", h.key));
+                }
+                if node != h.node {
+                    return Err(format!("memoised call (function of an earlier run of its bind) for key {} returned a different node while one is still held", h.key));
+                }
+                *nontrivial = true;
+            }
             0 | 1 | 2 | 3 => {
                 let k = rng.below(KEYS as usize) as i64;
                 let (gen, v) = {
@@ -434,6 +465,7 @@ fn inner_scoped(seed: u64, actions: &mut Vec<String>, calls_checked: &mut u64, n
     drop(held);
     drop(maker);
     stash.borrow_mut().take();
+    old_fns.borrow_mut().clear();
     st.stabilise();
     Ok(())
 }
